@@ -10,7 +10,7 @@ import time
 from collections import Counter
 from pathlib import Path
 
-from . import common
+from . import common, c17_hunt
 from .common import gz, glist, gbool
 
 PID = "C17"
@@ -1097,7 +1097,7 @@ def ax_of_ast(n, vm):
     if isinstance(n, ast.UnaryOp) and isinstance(n.op, ast.UAdd):
         return ax_of_ast(n.operand, vm)
     if isinstance(n, ast.BinOp):
-        k = {ast.Add: "add", ast.Sub: "sub", ast.Mult: "mul", ast.Div: "div"}.get(type(n.op))
+        k = {ast.Add: "add", ast.Sub: "sub", ast.Mult: "mul", ast.Div: "div", ast.FloorDiv: "fdiv"}.get(type(n.op))
         if k:
             return (k, ax_of_ast(n.left, vm), ax_of_ast(n.right, vm))
         if isinstance(n.op, ast.Pow) and isinstance(n.right, ast.Constant) and type(n.right.value) is int \
@@ -1120,7 +1120,7 @@ def ax_coq(a) -> str:
         return f"(ANeg {ax_coq(a[1])})"
     if k == "pow":
         return f"(APow {ax_coq(a[1])} {a[2]})"
-    return f"({ {'add': 'AAdd', 'sub': 'ASub', 'mul': 'AMul', 'div': 'ADiv'}[k] } {ax_coq(a[1])} {ax_coq(a[2])})"
+    return f"({ {'add': 'AAdd', 'sub': 'ASub', 'mul': 'AMul', 'div': 'ADiv', 'fdiv': 'AFdiv'}[k] } {ax_coq(a[1])} {ax_coq(a[2])})"
 
 
 def ax_vars(a, acc=None):
@@ -1199,14 +1199,16 @@ def sm_oracle(case, source, new, fv_names):
     for vals in itertools.product(range(lo, hi + 1), repeat=len(fv_names)):
         env = dict(zip(fv_names, vals))
         try:
-            before = eval(source[len("y = "):], {"sum": sum, "range": range}, dict(env))
-        except Exception:  # noqa   (the original raises: nothing to preserve)
-            continue
-        try:
-            after = sm_exact(out_text, env)
+            before = eval(source[len("y = "):], {"sum": sum, "range": range, **env})   # (generators see globals only)
+        except Exception as e:  # noqa   (the original raises: the rewrite must raise the same)
+            before = ("exc", type(e).__name__)
+        try:     # what Python computes for the emitted text: value AND type (an int sum must stay an int)
+            after = eval(out_text, {"__builtins__": {}, **env})
         except Exception as e:  # noqa
-            return f"the output raises {type(e).__name__}: {e}", env, False
-        if after != before:
+            after = ("exc", type(e).__name__)
+            if before != after:
+                return f"the output raises {type(e).__name__}: {e}", env, False
+        if after != before or type(after) is not type(before):
             rev = sm_reversed(case, env)
             if not rev:
                 return f"value {before!r} became {after!r}", env, False
@@ -1223,6 +1225,8 @@ SM_SYM_RANGES = [["n"], ["m", "n"], ["2", "n"], ["n", "7"], ["n + 1"], ["-n", "n
 def sm_cases(tier, rnd):
     lit = [[str(b)] for b in range(-2, 6)] + [[str(a), str(b)] for a in range(-2, 5) for b in range(-2, 6)]
     lit += [[str(a), str(b), str(s)] for a in (-1, 0, 2) for b in (0, 3, 6, 7) for s in (2, 3, -1, -2)]
+    # negative steps (seed C02-c: ceil replaced by the positive-divisor idiom (b - a + s - 1) // s)
+    lit += [[str(a), str(b), str(s)] for a in (3, 7, 9, 11) for b in (-4, 0, 7) for s in (-1, -3, -4)]
     cases = []
     for k, r in enumerate(lit):
         elts = SM_ELTS if tier != "quick" else [SM_ELTS[k % len(SM_ELTS)]]
@@ -1266,6 +1270,8 @@ SM_WITNESSES = [
     ("F17-16", "y = sum([i ^ 1 for i in range(3)])\n"), ("F17-16", "n = 5\ny = sum([i // 2 for i in range(n)])\n"),
     ("F17-16", "a = 7\ny = sum(range(a % 5))\n"), ("F17-17", "y = sum([1 << 2, 3])\n"),
     ("F17-18", "y = sum(range(5, 3))\n"), ("F17-18", "y = sum([i ** 3 for i in range(5, 2)])\n"),
+    ("seed C02-c", "y = sum([a for a in range(11, 0, -3)])\n"), ("seed C02-c", "y = sum([i + 1 for i in range(3, -4, -1)])\n"),
+    ("seed C02-c", "y = sum([1 for i in range(7, 7, -4)])\n"), ("seed C02-c", "y = sum([a * a for a in range(9, 0, -3)])\n"),
 ]
 
 BOOL_WITNESSES = [
@@ -1366,7 +1372,10 @@ def check_sums(run, mods, rnd, wd, hist, distinct):
         if len(gens) == 1 and gens[0][0] == "range" and gens[0][4] == ("num", 1) and gens[0][3][0] == "var":
             nv = gens[0][3][1]
             if nv in fv and nv not in ax_vars(gens[0][2]) and nv not in ax_vars(elt):
-                proofs.append((gens[0], elt, out, nv, source, new))
+                # the repaired rule writes N // d for the exact quotient: the instance proves sum == N / d over Q for
+                # all lo <= hi; SumPolyProofs.floor_exact turns that into N // d because the sum is an integer
+                exact = ("div", out[1], out[2]) if out[0] == "fdiv" and out[2][0] == "num" else out
+                proofs.append((gens[0], elt, exact, nv, source, new))
     files, shards = [], []
     body = ";\n ".join(f"({glist(g, sm_gen_coq)}, {ax_coq(e)}, {ax_coq(o)}, {glist(fv, lambda i: str(i) + '%nat')}, "
                        f"({gz(box[0])}, {gz(box[1])}))" for (g, e, o, fv, box, *_r) in coq_cases)
@@ -1555,6 +1564,18 @@ def check(run: common.Run):
     sstats["python_wall_s"] = round(time.time() - t_sym, 1)
     files += sfiles; shards += sshards
 
+    # ---- round 4 (hunt reports): program-level families -- sums in contexts / with non-arithmetic, float and
+    # failing summands, guard idioms, effectful / walrus / conditional-expression operands, fix_if_return/assign,
+    # ignore comments on one of two coupled edits
+    t_h = time.time()
+    hresults, hfailures = c17_hunt.sweep(mods, run.tier, rnd)
+    for fam, _m, _r, src_, new_, problem, _at in hresults:
+        hist[f"hunt:{fam}:" + ("failed" if problem else "rewritten" if new_ != src_ else "unchanged")] += 1
+        if new_ is not None and new_ != src_:
+            distinct.add("hunt:" + src_)
+    hstats = {"cases": len(hresults), "rewritten": sum(1 for r_ in hresults if r_[4] is not None and r_[4] != r_[3]),
+              "python_wall_s": round(time.time() - t_h, 1)}
+
     # ---- simplify_math_iterators: sums over ranges / displays computed by sympy
     t_sm = time.time()
     mfiles, mshards, mfailures, mknown, mstats, (pcode, coq_cases, pfiles, proofs) = check_sums(run, mods, rnd, wd, hist, distinct)
@@ -1668,6 +1689,28 @@ def check(run: common.Run):
             else:
                 common.log(f"note: known finding {f.id} no longer reproduces")
     failures += mknown          # not covered by a listed finding
+    # program-level families: a failure is suppressed only by a finding with the same site whose predicate holds
+    hunt_known = {}
+    for site, it in hfailures:
+        hit = None
+        for f in kf:
+            pred = c17_hunt.SIGS.get(f.fields.get("sig", ""))
+            if f.kind == "finding" and f.fields.get("site") == site and pred:
+                try:
+                    ok = pred(it)
+                except Exception:  # noqa
+                    ok = False
+                if ok:
+                    hunt_known.setdefault(f.id, (f, []))[1].append(it)
+                    hit = f
+        if hit is None:
+            failures.append((site, it))
+    for fid, (f, hits) in hunt_known.items():
+        run.known_finding(fid, f"{f.text} [{len(hits)} instances, e.g. {hits[0]['source'].strip()!r} -> "
+                               f"{(hits[0]['output'] or '').strip()!r}: {hits[0]['problem']} at {hits[0]['valuation']}]")
+    for f in kf:
+        if f.kind == "finding" and f.fields.get("sig") in c17_hunt.SIGS and f.id not in hunt_known:
+            common.log(f"note: known finding {f.id} no longer reproduces")
 
     # ---- verdicts
     for site, pf in failures[:5]:
@@ -1714,7 +1757,7 @@ def check(run: common.Run):
                  sums[5]["source"]] + rstats.pop("samples") + sstats.pop("samples") + mstats.pop("samples"),
         exhaustive=False, exhaustive_pairs=n_pairs, histogram=dict(hist),
         correspondence_disagreements=len(disagreements), property_oracle_failures=len(failures),
-        sum_cases_outside_model=len(sum_unrepresentable), constrained_range=rstats, symmath=sstats, sums=mstats,
+        sum_cases_outside_model=len(sum_unrepresentable), constrained_range=rstats, symmath=sstats, sums=mstats, hunt_families=hstats,
         unmodelled=["sympy itself (simplify_boolean_expressions_symmath, _integrate_over, _sum_range, _sum_constants): not "
                     "modelled -- every output the real rules produce on the generated inputs is validated per instance by "
                     "the verified checkers (BoolEquivModel.equiv_dec_arith / vequiv_dec; SumPolyModel.sum_case_code on a box "
